@@ -307,6 +307,13 @@ func runCtlJob(j CtlJob) JobOut {
 				}
 			}
 		}
+		// the owner goes silent while streaming over UDP: requests from elsewhere must not move the session's clock
+		if j.Transport == "udp" && (o.Before.State == "play" || o.Before.State == "record") {
+			a.lifeCases(base, j.Kinds)
+			if len(a.out.Fails) >= maxFailsPerJob {
+				return
+			}
+		}
 		// an intruder from the owner's address that attached its connection to the session BEFORE the
 		// session started streaming over the owner's interleaved connection (every earlier point)
 		if o.Before.pinned() {
@@ -354,6 +361,17 @@ func worker(raw json.RawMessage) any {
 	case "one-ctl":
 		a := newAcc()
 		a.ctlCase(*j.One)
+		return a.finish()
+	case "one-life":
+		a := newAcc()
+		k := j.One.Kind
+		b := *j.One
+		b.Kind, b.Req = "", ""
+		if ref, state, _, _, err := lifeRun(b, false); err == nil && state != "" {
+			c := *j.One
+			c.Kind = k
+			a.lifeCase(c, ref)
+		}
 		return a.finish()
 	}
 	return JobOut{Harness: []string{"unknown job kind " + j.Kind}}
@@ -526,6 +544,12 @@ func main() {
 				run.Fatal("replay: %v", err)
 			}
 			job = Job{Kind: "one-ctl", One: &c}
+		case "life":
+			var c CtlCase
+			if err := json.Unmarshal(d.Case, &c); err != nil {
+				run.Fatal("replay: %v", err)
+			}
+			job = Job{Kind: "one-life", One: &c}
 		default:
 			run.Fatal("replay: unknown part %q", d.Part)
 		}
